@@ -4,6 +4,9 @@ import numpy as np, numba, scipy.sparse as sp
 from vp.coqrun import fl, zl, flist, zlist, blist, clist, parse_zlist
 import umap, umap.layouts as L, umap.umap_ as U
 import c07
+from vp import link
+
+DENS_INIT = "_optimize_layout_euclidean_densmap_epoch_init"
 
 PTOL, CTOL, RTOL = 2e-3, 1e-9, 2e-4
 RULE = ("(a) fits with densmap=True, dens_lambda=0 / dens_frac=0 vs plain UMAP (same seed, n_epochs): embeddings bit-identical; (b) the per-epoch flag schedule observed "
@@ -14,6 +17,17 @@ RULE = ("(a) fits with densmap=True, dens_lambda=0 / dens_frac=0 vs plain UMAP (
 
 def run(ctx):
     ctx.check_proofs(["prop/P_C17.v"])
+    # translation tie: the per-epoch density statistics kernel regenerated from the current layouts.py (both aliasing variants);
+    # link theorems (coq/link/L_dens.v): translated source = M_dens.dens_init for all well-formed inputs, over R (sequential meaning of
+    # the prange loop).
+    lres = link.check(ctx, "layouts_dens", {"rdist": "src_rdist_dens_eq", DENS_INIT + "_shared": "src_dens_init_eq",
+                                            DENS_INIT + "_distinct": "src_dens_init_distinct_eq"})
+    # the SGD epoch kernel translated for densmap_flag=True, tail_embedding is head_embedding (module "layouts", shared with C07;
+    # coq/link/L_sgd_dens.v): = M_dens.epoch_dens true cx over R, and with dens_lambda = 0 = the densmap_flag=False translation
+    link.check(ctx, "layouts", {c07.SGD_K + "_dens_shared": "src_sgd_dens_shared_eq", c07.SGD_K + "_shared": "src_sgd_dens_lambda0"},
+               not_translated={c07.SGD_K + "_dens_distinct": "densmap_flag=True with two non-overlapping arrays: translated (Src_layouts.v), no link "
+                               "theorem (umap never runs the density term in transform); per-run correspondence does not cover it either"})
+    src_ready = lres.ok and not any("E_dens" in e for e in lres.errors)
     rng = ctx.rng
     npr = np.random.RandomState(rng.randrange(2 ** 31))
     hdr = ("From Coq Require Import List ZArith PrimFloat. From UV Require Import Num FNum M_sgd M_dens V_sgd V_dens.\n"
@@ -147,6 +161,23 @@ def run(ctx):
         for off, code in enumerate(parse_zlist(bl[0])):
             ctx.traces += 1
             if code != -1: ctx.diff(icases[off], {1: "phi_sum", 2: "re_sum"}.get(code, "?"))
+    # (d') the TRANSLATED source of the statistics kernel (Src_layouts_dens.v, regenerated from the current layouts.py) run in binary64 on
+    #      the same inputs (validates the translator's `.fill` / accumulation semantics against the running code)
+    if src_ready:
+        for s in range(0, len(iterms), 60):
+            text = hdr.replace("Import ListNotations.", "From UVS Require Import E_dens.\nImport ListNotations.", 1) + \
+                "Eval vm_compute in map (verdict_src_dens_init 1e-3) %s.\n" % clist(iterms[s:s + 60])
+            bl = link.coq_eval(ctx, lres, "cases_C17_src_init%d" % (s // 60), text, what="translated densmap_epoch_init vs the jitted kernel")
+            if bl is None: continue
+            v = parse_zlist(bl[0])
+            if len(v) != len(iterms[s:s + 60]):
+                ctx.broken.append("C17 translated-source verdict list length mismatch"); continue
+            for off, code in enumerate(v):
+                ctx.traces += 1
+                if code == 6:
+                    ctx.broken.append("C17: a generated statistics case is outside the hypotheses of the link theorem src_dens_init_eq")
+                elif code != -1:
+                    ctx.diff(icases[s + off], "translated source of densmap_epoch_init vs the jitted kernel: " + {1: "phi_sum", 2: "re_sum", 3: "array lengths"}.get(code, "?"))
     # ---- (e) local radii -------------------------------------------------------------------------------------------
     rterms, rcases = [], []
     for c in range(4 if quick else 20):
